@@ -9,7 +9,8 @@ from ..ref import refdepth
 RULE = (
     "valid documents (flat, nested, multi-operation; fragments, inline fragments, merged keys, "
     "@skip/@include steered by fully supplied variables) are measured by MaxDepthValidationRule for "
-    "every limit in 0..depth+2 and every operation-name filter (each name, an unknown name, none), "
+    "every limit in 0..depth+2 and every operation-name filter (each name, an unknown name, none; a "
+    "lone operation is left anonymous half of the time), "
     "directly and through validate_ast(validators=[...]); the verdict per operation is compared with "
     "the reference depth of the IR (refdepth); metamorphic copies wrap random sub-selections (incl. "
     "the whole top level) in inline fragments, named fragments and same-key field splits and must "
